@@ -2,6 +2,7 @@
 From Coq Require Import List NArith ZArith String Bool.
 From DT Require Import GenStatus GenEvent FsmTypes GenFsm Fsm FsmFacts Caches C07Proofs C08Proofs.
 From DT Require Node NodeLiftS UpdateProofs.
+From DT Require GenDecide DecideEq Caches.
 Import ListNotations.
 Local Open Scope Z_scope.
 
@@ -66,3 +67,30 @@ Theorem C08_accepting_update_pauses_only_when_left_paused :
     NodeLiftS.all_instr self UpdateProofs.no_pause _ (UpdateProofs.uv_body k c vr).
 Proof. exact UpdateProofs.accepting_update_pauses_only_when_left_paused. Qed.
 Print Assumptions C08_accepting_update_pauses_only_when_left_paused.
+
+(* the pause rule the theorems above are about (Node.leave_paused: forced pause, or finalization
+   still required on a channel in finalization, or a non-zero data limit already reached by the
+   limited total) is the one in the source: GenDecide.gen_LeaveRequestPaused is regenerated from
+   manager.go ValidationResult.LeaveRequestPaused on every run *)
+Theorem C08_pause_rule_is_the_sources :
+  forall vr c, GenDecide.gen_LeaveRequestPaused vr c = Node.leave_paused vr c.
+Proof. exact DecideEq.leave_paused_is_source. Qed.
+Print Assumptions C08_pause_rule_is_the_sources.
+
+(* the durable values the caches are lazily seeded from after a (re)start, and the events each kind
+   of block report fires, are the ones in the source: regenerated on every run from
+   channels/channels.go (DataQueued / DataSent / DataReceived, getXIndex, getXProgress) and the
+   accessors of channels/channel_state.go they read *)
+Theorem C08_cache_seeding_is_the_sources :
+  forall k c,
+    GenDecide.gen_index_seed k c = Caches.durable_index k c /\
+    GenDecide.gen_progress_seed k c =
+      (if Caches.limited k then Some (c_limit c, Caches.durable_total k c) else None).
+Proof. exact DecideEq.cache_seeding_is_source. Qed.
+Print Assumptions C08_cache_seeding_is_the_sources.
+
+Theorem C08_report_wiring_is_the_sources :
+  forall k, GenDecide.gen_data_event k = Caches.data_event k /\
+            GenDecide.gen_progress_event k = Caches.progress_event k.
+Proof. exact DecideEq.report_wiring_is_source. Qed.
+Print Assumptions C08_report_wiring_is_the_sources.
